@@ -601,23 +601,15 @@ class Subspace(IdealPoint):
         return DualPoint(orthed[..., 0, :])
 
     def _data_with_dual(self):
-        midpoints = np.sum(self.ideal_basis, axis=-2) / self.ideal_basis.shape[-2]
-
-        poincare_ctr, poincare_rad = self.sphere_parameters(model=Model.POINCARE)
-        spacelike_guess = Point(poincare_ctr, model=Model.KLEIN).coords(
-            model=Model.PROJECTIVE
-        )
-
-        to_orthogonalize = np.concatenate(
-            [np.expand_dims(midpoints, axis=-2),
-            self.ideal_basis[..., 1:, :],
-            np.expand_dims(spacelike_guess, axis=-2)],
-            axis=-2)
-
-        orthed = utils.indefinite_orthogonalize(self.minkowski,
-                                                to_orthogonalize)
+        # the Minkowski-orthogonal complement of the span of the
+        # ideal basis is positive definite, so any vector in it is
+        # spacelike. (Guessing a spacelike vector from the center of
+        # the Poincare sphere fails for subspaces through the origin,
+        # whose "sphere" is flat.)
+        complement = utils.orthogonal_complement(self.ideal_basis,
+                                                 self.minkowski)
         return np.concatenate([
-            np.expand_dims(orthed[..., -1, :], axis=-2),
+            complement[..., :1, :],
             self.ideal_basis], axis=-2)
 
     def sphere_parameters(self, model=Model.POINCARE):
